@@ -10,7 +10,9 @@ CLAIMED = {
         technique='Lean 4 proof: fair-termination rule (global measure + per-thread ranks + helpful/ready thread; extended to strong '
                   'fairness with a lock-release sub-argument) instantiated on the pc-machine model of the pipeline, on top of '
                   'inductive invariants for every schedule (mutual exclusion / ownership of the wait-strategy mutex, no lost '
-                  'wake-up) + trace replay of real executions under the deterministic scheduler, which reports deadlock / budget '
+                  'wake-up); the executor the liveness statements presuppose (one thread per runnable, join waits for all) regenerated from '
+                  'executor/thread_pool_executor.rs on every run (tools/rs2lean_executor.py, Gen/Executor.lean, Props/C06Gen.lean) '
+                  '+ trace replay of real executions under the deterministic scheduler, which reports deadlock / budget '
                   '(hang) / panic ends',
         text='Single-producer pipelines, every ring size, topology (K>=1 stages, >=1 handler each) and batch list with 1<=b<=N '
              '(covers the property\'s b<N; includes the empty list = drained without publishing). (a) spin strategy: '
@@ -321,7 +323,9 @@ CLAIMED = {
     'C13': dict(
         technique='Lean 4 proof: consequences of the pipeline invariants for every schedule (single and multi producer) + slot layer; '
                   'the stage wiring the models assume is proved equal to what the DSL builder builds, for every topology, on definitions '
-                  'regenerated from dsl/rust_disruptor_builder.rs on every run (tools/rs2lean_wiring.py, Gen/RingWiring.lean, Props/C13Gen.lean) '
+                  'regenerated from dsl/rust_disruptor_builder.rs on every run (tools/rs2lean_wiring.py, Gen/RingWiring.lean, Props/C13Gen.lean); what a spin-waiting '
+                  'handler waits for (get_min_cursor_sequence, one pass of the wait loop) likewise regenerated and proved to be the model\'s '
+                  'waitLoad / checkAvail / checkAlert steps (tools/rs2lean_spinwait.py, Gen/SpinWait.lean, Props/C13WaitGen.lean) '
                   '+ trace replay under the deterministic scheduler',
         text='Every configuration and schedule, single producer (c13_stage_order) and multi producer (c13_multi_stage_order): a '
              'stage-(k+1) handler about to handle i finds i in the log of every stage-k handler, whose published cursor is >= i; '
